@@ -90,11 +90,38 @@ def correspondence(ctx):
         want = hashlib.sha1(m).hexdigest()
         if simpl.get(k) != want or smodel.get(k) != want:
             broken.append({"what": "SHA-1 instances disagree", "case": c[:200], "crate": simpl.get(k), "gallina": smodel.get(k), "hashlib": want})
+    # "The per-torrent export directory is named by its 40-digit lowercase hexadecimal form": real runs; the export
+    # directory already holds an UPPER-case namesake of the torrent's directory (and other 40-digit names), which is not it
+    import runprops, oracles, worldgen
+    scen = []
+    for i in range(16 if tier == "quick" else 120):
+        w = runprops.world_for("hexdir", ctx["seed"], i)
+        r2 = vlib.rng_for(ctx["seed"], "C07hexdir/%d" % i)
+        if w.torrents:
+            worldgen.upper_case_namesake(w, r2.choice(w.torrents), r2)
+        scen.append((runprops.Scenario("hexdir", ctx["seed"], i), w))
+    nruns = 0
+    for r in runprops.run_scenarios(ctx, scen):
+        nruns += 1
+        cx = oracles.Ctx(r["w"], r["rr"], r["ce"])
+        bad = None if r["rr"].result in ("ok", "err") else "the run did not return a result: %s" % r["rr"].result
+        bad = bad or oracles.c12(cx) or oracles.c03(cx)
+        if not bad and r["rr"].result == "ok":
+            for t in cx.torrents:
+                made = [rel for rel in r["rr"].after if rel not in r["rr"].before and rel[:len(cx.export_rel)] == cx.export_rel and len(rel) == len(cx.export_rel) + 1]
+                for rel in made:
+                    nm = rel[-1]
+                    if not (len(nm) == 40 and all(c in b"0123456789abcdef" for c in nm) and any(nm == u.hex.encode() for u in cx.torrents)):
+                        bad = "directory %r created in the export directory is not the 40-digit lowercase hexadecimal info-hash of a loaded torrent" % (nm,)
+        if bad and len(findings) < 8:
+            findings.append({"scenario": r["sc"].ident(), "violated_clause": bad, "model_verdict": r["verdict"][:300], "world": runprops.describe_world(r["w"])})
+        elif not bad and not r["verdict"].startswith("ok") and len(broken) < 10:
+            broken.append({"what": "run with an upper-case namesake directory is not a behaviour of the model: " + r["verdict"][:500], "scenario": r["sc"].ident()})
     return {
-        "evaluations": len(cases) + len(hcases) + len(scases), "distinct_nontrivial": loaded,
-        "rule": "generated documents with random top-level keys before/after 'info' (nested containers, strings full of d/e/i/l/digits/':'), extra keys inside info, the loader's own key names (name, length, files, pieces, piece length, ...) copied or mistyped at the top level next to 'info'; all 256 single bytes + random 20-byte strings for the hex form; SHA-1 on every length 0..200 + random; non-trivial = loadable document",
+        "evaluations": len(cases) + len(hcases) + len(scases) + nruns, "distinct_nontrivial": loaded,
+        "rule": "generated documents with random top-level keys before/after 'info' (nested containers, strings full of d/e/i/l/digits/':'), extra keys inside info, the loader's own key names (name, length, files, pieces, piece length, ...) copied or mistyped at the top level next to 'info'; all 256 single bytes + random 20-byte strings for the hex form; SHA-1 on every length 0..200 + random; real runs with an UPPER-case namesake of the export directory already present (the directory created must be the lowercase form); non-trivial = loadable document",
         "samples": [{"case": c[:300], "impl": impl.get(c.split()[0])} for c in cases[:3]],
-        "distribution": {"documents": len(cases), "loaded": loaded, "hex_cases": len(hcases), "sha1_cases": len(scases)},
+        "distribution": {"documents": len(cases), "loaded": loaded, "hex_cases": len(hcases), "sha1_cases": len(scases), "runs_with_upper_case_namesake_directory": nruns},
         "disagreements": len(dis), "findings": findings, "broken": broken[:10],
         "explanation": "info_hash_is_H_of_info_value / info_hash_indep_outer / hex_* proved; model tied to the code by differential runs",
     }
